@@ -590,6 +590,9 @@ def run(check, ctx):
     from . import c_md, c_digest
     c_md.md_tables(check, ctx, groups=("pad",))
     c_digest.digest_tables(check, ctx, groups=("md",))
+    # the native bcrypt key schedule against an independent reference (tables = digits of pi)
+    from . import c_kat
+    c_kat.eks_tables(check, ctx)
     check.floor("K-sym", 6)
-    check.undecided.append("derived bytes of the EKSBlowfish core (native); scrypt ROMix outside the (r, N) table; "
+    check.undecided.append("EKSBlowfish outside the (key length, cost, salt) rows; scrypt ROMix outside the (r, N) table; "
                            "the hash and MAC functions themselves (C03)")
